@@ -3202,7 +3202,7 @@ type CollateExpr struct {
 
 // Format formats the node.
 func (node *CollateExpr) Format(buf *TrackedBuffer) {
-	buf.Myprintf("%v collate %s", node.Expr, node.Charset)
+	buf.Myprintf("%v collate %v", node.Expr, NewColIdent(node.Charset))
 }
 
 func (node *CollateExpr) walkSubtree(visit Visit) error {
@@ -3444,7 +3444,7 @@ type ConvertUsingExpr struct {
 
 // Format formats the node.
 func (node *ConvertUsingExpr) Format(buf *TrackedBuffer) {
-	buf.Myprintf("convert(%v using %s)", node.Expr, node.Type)
+	buf.Myprintf("convert(%v using %v)", node.Expr, NewColIdent(node.Type))
 }
 
 func (node *ConvertUsingExpr) walkSubtree(visit Visit) error {
